@@ -163,14 +163,14 @@ def run(ctx, rep):
     # parity
     pc = parity_compares(f)
     gens = list(f.calls('raid_gen'))
-    ok3 = len(pc) == 1 and len(gens) == 1 and f.dominates(gens[0], pc[0]) and [f.expr(o) for o in gens[0].ops] == ['diskmax', 'state->level', 'state->block_size', 'buffer']
+    ok3 = len(pc) == 1 and len(gens) == 1 and f.dominates(gens[0], pc[0]) and [f.xexpr(o) for o in gens[0].ops] == ['diskmax', 'state->level', 'state->block_size', 'buffer']
     det3 = ''
     if ok3:
         p = pc[0]
         lp = f.loop_of(p.block)
         # loop over l < state->level
         hdr = f.term(lp)
-        bound = f.expr(hdr.ops[0]) if hdr.op == 'br' and len(hdr.ops) == 3 else ''
+        bound = f.xexpr(hdr.ops[0]) if hdr.op == 'br' and len(hdr.ops) == 3 else ''
         ok3 = 'state->level' in bound and '(l<' in bound.replace(' ', '')
         brs = cond_branches_on_call(f, p)
         okm = False
@@ -308,7 +308,7 @@ def run(ctx, rep):
         p = pc[0]
         lp = g.loop_of(p.block)
         hdr = g.term(lp)
-        bound = g.expr(hdr.ops[0]) if hdr.op == 'br' and len(hdr.ops) == 3 else ''
+        bound = g.xexpr(hdr.ops[0]) if hdr.op == 'br' and len(hdr.ops) == 3 else ''
         rp = list(g.calls('repair'))
         brs = cond_branches_on_call(g, p)
         okm = False
